@@ -1,7 +1,7 @@
 #!/bin/bash
 # for each revert diff: which committed replay files of that property fail on the reverted tree?
 cd /verif
-for f in mutants/*/revert-*.diff; do id=$(basename $(dirname $f)); sha=$(basename $f .diff); W=/tmp/vrc-$sha
+for f in mutants/${1:-*}/revert-*.diff; do id=$(basename $(dirname $f)); sha=$(basename $f .diff); W=/tmp/vrc-$sha
   git -C /repo worktree add --detach $W HEAD >/dev/null 2>&1; git -C $W apply /verif/$f || { echo "$id $sha: patch failed"; continue; }
   fails=""
   if [ "$id" = "C12" ]; then files=$(ls replays/$id/*.bin 2>/dev/null); else files=$(ls replays/$id/*.json 2>/dev/null); fi
